@@ -8,6 +8,35 @@ HOOK_COMMITS = ["611dceb", "dfbb501", "8c2e05d", "bdc40f2"]
 NOT_CLAIMED = {}
 
 CHECKS = {
+    "C13": {
+        "engines": {"quick": ["native", "asan", "miri"], "thorough": ["native", "asan", "miri"]},
+        "optional_engines": ["asan", "miri"],
+        "crash_is_violation": True,
+        "level": "exploration",
+        "rule": "histories over the public Heap/Guard/Gc API in canonical form (guards and objects named in creation order, "
+                "an operation offered only when its operands exist), enumerated exhaustively per family up to the stated depth "
+                "and executed on the real heap in lock-step with a reference model; plus seeded random histories (<=250 named "
+                "objects, <=8000 ops) and churn runs with thousands of objects across chunk (256) and guard-pool (16) boundaries. "
+                "A history counts as non-trivial when at least one collection in it reclaimed at least one object (H1 sweep counter); "
+                "every enumerated history is distinct by construction",
+        "exhaustive": "native quick: full alphabet <=3 guards/<=4 objects/<=7 ops (the property's bound), core alphabet <=9 ops at thresholds 0 and 1; "
+                      "thorough: 8 / 10 / 10; Miri and ASan: smaller depths (see observed.*family_*_depth)",
+        "floor": {"quick": 10000, "thorough": 100000},
+        "unit_timeout": {"default": 600, "miri": 1500},
+        "technique": "runtime monitoring: lock-step executable reference model over exhaustively enumerated and random API histories, "
+                     "H1 stale-handle log, Miri (Tree Borrows) and AddressSanitizer as memory-safety oracles",
+        "level_text": "Every history of the bounded space is executed on the real collector and compared after the final operation "
+                      "(payloads and links of model-reachable objects, stats().live_objects after collect, reclaimed-ness of unreachable "
+                      "objects, slot reuse accounting); the same driver runs under Miri and ASan so that any freed/out-of-bounds access on "
+                      "those histories is reported. Exhaustive to the stated depth, sampled beyond.",
+        "level_note": "trusts the reference model (harness/src/checks/c13.rs, ~150 lines) and the H1 generation stamps; Miri runs with Tree "
+                      "Borrows (the Stacked-Borrows-only retag in alloc_internal is an aliasing-model matter, not freed/out-of-bounds memory); "
+                      "histories in which a stale handle was dropped onto a reused slot are attributed to the recorded finding",
+        "assumptions": [
+            "reference model of guard reachability and of the collect-before-allocate counter is correct (a disagreement about *when* a collection runs is reported as inconclusive, not as a violation)",
+            "Miri: Tree Borrows; ASan: detect_leaks=0 (the arena is freed with the heap)",
+        ],
+    },
     "C18": {
         "engines": NATIVE,
         "level": "exploration",
